@@ -287,6 +287,9 @@ func Explore(p *Program, harness string, opt Options) *Report {
 				rep.Intrinsics[k] += v
 			}
 			rep.Notes = append(rep.Notes, m.Notes()...)
+			for k, v := range m.SiteStats {
+				rep.Intrinsics["site: "+k] += v
+			}
 			q, s, u, k, e, secs := m.SolverStats()
 			rep.Queries += q
 			rep.QSat += s
@@ -294,7 +297,7 @@ func Explore(p *Program, harness string, opt Options) *Report {
 			rep.QUnknown += k
 			rep.QErrors += e
 			rep.SolverSecs += secs
-			fmt.Fprintf(os.Stderr, "worker %d: check %.1fs values %.1fs\n", w, secs, m.sol.ValTime.Seconds())
+			fmt.Fprintf(os.Stderr, "worker %d: check %.1fs (after-flush %.1fs in %d) values %.1fs\n", w, secs, m.sol.FlushTime.Seconds(), m.sol.FlushN, m.sol.ValTime.Seconds())
 			mu.Unlock()
 		}(w)
 	}
@@ -327,6 +330,9 @@ func (m *Machine) RunInit(pkg *ssa.Package) (err error) {
 	m.lemmas = map[string]bool{}
 	m.ufSeen = map[*Term]bool{}
 	m.ufScanned = map[*Term]bool{}
+	m.known = map[*Term]bool{}
+	m.bounds = map[*Term]rng{}
+	m.rmemo = map[*Term]rng{}
 	m.stubs = map[string]value{}
 	m.locks = map[*value]int{}
 	m.onceDone = map[*value]bool{}
